@@ -61,6 +61,48 @@ def coupled_constructs(ctx):
     for k, push in enumerate([0, 300, 600, 900, 1200] if ctx.thorough() else [0, 600]):
         t = [int(x * push / n) for x in v]
         out.append((f"asp-pair+{push}", C.join(a + [C.TER] + C.translate(b, *t) + [C.TER]), []))
+    # coupling that exists in the second conformation only: Asp25' side chain, alt-loc A pushed 4 A away, alt-loc B in place
+    from .. import pdbio
+    side = lambda ln: ln[17:20] == "ASP" and int(ln[22:26]) == 25 and ln[12:16].strip() not in ("N", "CA", "C", "O")  # noqa
+    t = [int(x * 4000 / n) for x in v]
+    alt_a, alt_b = [], []
+    for ln in b:
+        if C.is_atom(ln) and side(ln):
+            r = pdbio.parse_line(ln)
+            alt_a.append(pdbio.set_xyz(ln[:16] + "A" + ln[17:], r.x + t[0], r.y + t[1], r.z + t[2]))
+            alt_b.append(ln[:16] + "B" + ln[17:])
+    full = [ln for ln in C.body(C.test_pdb_text("1HPX")) if C.is_atom(ln) or ln.startswith("TER")]
+    sideB = lambda ln: side(ln) and ln[21] == "B"  # noqa
+    alt_a, alt_b = [], []
+    for ln in full:
+        if C.is_atom(ln) and sideB(ln):
+            r = pdbio.parse_line(ln)
+            alt_a.append(pdbio.set_xyz(ln[:16] + "A" + ln[17:], r.x + t[0], r.y + t[1], r.z + t[2]))
+            alt_b.append(ln[:16] + "B" + ln[17:])
+    f2 = []
+    for ln in full:
+        if C.is_atom(ln) and sideB(ln):
+            if alt_a:
+                f2 += alt_a + alt_b
+                alt_a = []
+            continue
+        f2.append(ln)
+    out.append(("1HPX-asp25B-coupled-in-altB-only", C.join(f2), []))
+    alt_a, alt_b = [], []
+    for ln in b:
+        if C.is_atom(ln) and side(ln):
+            r = pdbio.parse_line(ln)
+            alt_a.append(pdbio.set_xyz(ln[:16] + "A" + ln[17:], r.x + t[0], r.y + t[1], r.z + t[2]))
+            alt_b.append(ln[:16] + "B" + ln[17:])
+    b2 = []
+    for ln in b:
+        if C.is_atom(ln) and side(ln):
+            if alt_a:
+                b2 += alt_a + alt_b
+                alt_a = []
+            continue
+        b2.append(ln)
+    out.append(("asp-pair-coupled-in-altB-only", C.join(a + [C.TER] + b2 + [C.TER]), []))
     return out
 
 
